@@ -151,7 +151,7 @@ def scenario(ctx):
 	rdt = ch.pick(DTYPES, 'ref_dtype')
 	rng = random.Random(ch.subseed('world'))
 	universe = W.universe_for(rng, [qdt, rdt])
-	nref = ch.pick([5, 1, 2, 3, 8, 13, 23, 40], 'nref')
+	nref = ch.pick([5, 1, 2, 3, 8, 13, 23, 40] + ([90, 200] if ctx.tier == 'thorough' else []), 'nref')
 	nq = ch.int(1, 6, 'nq')
 	refs = W.make_collection(rng, nref, universe)
 	# queries: some taken from the references (zero distances), some fresh
